@@ -55,6 +55,37 @@ var props = map[string]propSpec{
 	"C20": {"C20", []string{"empty", "rnd-empty"}, "", nil},
 }
 
+// properties about the generator run: their checks also model-check the run machine
+var runLevel = map[string]bool{"C01": true, "C12": true, "C14": true, "C16": true, "C18": true}
+
+var designStates, designGen int64
+
+// designCheck model-checks a behaviour-free-standing module of the specification (cached by spec hash).
+func designCheck(w, module string) (int64, int64, error) {
+	type cached struct {
+		States, Generated int64
+	}
+	cp := cachePath("design", module, "any", 0, false)
+	if b, err := ioutil.ReadFile(cp); err == nil {
+		var c cached
+		if json.Unmarshal(b, &c) == nil && c.States > 0 {
+			return c.States, c.Generated, nil
+		}
+	}
+	dir := filepath.Join(w, "design-"+module)
+	if err := copySpec(dir); err != nil {
+		return 0, 0, err
+	}
+	res, err := runTLC(dir, module+".tla", module+".cfg", 8, 8000, 20*time.Minute, nil)
+	if err != nil {
+		return 0, 0, err
+	}
+	os.MkdirAll(cacheDir, 0o755)
+	ioutil.WriteFile(cp, mustJSON(cached{res.Distinct, res.Generated}), 0o644)
+	os.RemoveAll(dir)
+	return res.Distinct, res.Generated, nil
+}
+
 type knownFinding struct {
 	ID       string `json:"id"`
 	Property string `json:"property"`
@@ -190,6 +221,16 @@ func checkProperty(p propSpec, tier string, seed int64, replay string) int {
 			fail2("family %s: harness errors: %v", fn, r.HarnessErr[0])
 		}
 		reps = append(reps, r)
+	}
+	// design level: the generator run machine (GenRun.tla) with its invariants C01 C12 C14 C16 C18, every
+	// interleaving of the map-order dump explored; a failure here is a fault of the specification (exit 2)
+	if runLevel[p.ID] && replay == "" {
+		st, gen, err := designCheck(env.W, "MC_GenRun")
+		if err != nil {
+			cleanup()
+			fail2("design-level model MC_GenRun: %v", err)
+		}
+		designStates, designGen = st, gen
 	}
 	return verdict(p, tier, seed, reps, known, time.Since(start).Seconds(), replay != "")
 }
@@ -334,7 +375,7 @@ func verdict(p propSpec, tier string, seed int64, reps []*FamilyReport, known kn
 			states: states, transitions: gen, traces: behs, evals: evals, distinct: distinct, samples: samples, wall: wall,
 			violations: nviol, extra: map[string]interface{}{
 				"trace_lines_accepted": lines, "drift": drift, "known_findings_hit": knownHits,
-				"model_level_contract_failures": modelViol, "unexplored": unexplored, "families": p.Families, "from_cache": cached, "alternative_renderings_run": altRuns, "seeded_random_behaviours": randomBehs,
+				"model_level_contract_failures": modelViol, "unexplored": unexplored, "families": p.Families, "from_cache": cached, "alternative_renderings_run": altRuns, "genrun_model_states": designStates, "genrun_model_transitions": designGen, "seeded_random_behaviours": randomBehs,
 			}})
 	}
 	return exit
